@@ -442,10 +442,18 @@ impl<'a> Parser<'a> {
 
     /// Parses multi-select lists (e.g., "[foo, bar, baz]")
     fn parse_multi_list(&mut self) -> ParseResult {
-        Ok(Ast::MultiList {
-            offset: self.offset,
-            elements: self.parse_list(Token::Rbracket)?,
-        })
+        let offset = self.offset;
+        let elements = self.parse_list(Token::Rbracket)?;
+        // "[]" is tokenized as a flatten, but "[ ]" reaches this point: a
+        // multi-select list requires at least one expression.
+        if elements.is_empty() {
+            return Err(JmespathError::new(
+                self.expr,
+                offset,
+                ErrorReason::Parse("Expected at least one expression in a multi-select list".to_owned()),
+            ));
+        }
+        Ok(Ast::MultiList { offset, elements })
     }
 
     /// Parse a comma separated list of expressions until a closing token.
